@@ -72,7 +72,8 @@ pub struct Shape {
     pub n: usize,
     pub cols: Vec<Rule>,
     pub periodic: Vec<Periodic>,
-    /// (aux width in {1,2}, number of random elements in {1,2})
+    /// (aux width in {1,2,3}, number of random elements in {1,2}); a third auxiliary column has a
+    /// degree-4 rule, so that an auxiliary constraint can dominate every main-segment degree
     pub aux: Option<(usize, usize)>,
     pub exemptions: usize,
     pub asserts: Vec<ASpec>,
@@ -104,7 +105,7 @@ impl Shape {
     pub fn aux_declared(&self) -> Vec<(usize, Vec<usize>)> {
         match self.aux {
             None => vec![],
-            Some((w, _)) => vec![(2, vec![]); w],
+            Some((w, _)) => (0..w).map(|c| (if c < 2 { 2 } else { 4 }, vec![])).collect(),
         }
     }
     /// documented minimum blowup: max over constraints of max(2, next_pow2(base + #cycles - 1))
@@ -262,7 +263,8 @@ pub fn gen_main<B: BaseF>(s: &Shape) -> Vec<Vec<B>> {
     cols
 }
 
-/// honest auxiliary trace: aux0: next = cur * (main0 + r0); aux1: next = cur * (main_{1 % w} + r_last) + main0
+/// honest auxiliary trace: aux0: next = cur * (main0 + r0); aux1: next = cur * (main_{1 % w} + r_last) + main0;
+/// aux2: next = cur^3 * (main0 + r0)
 pub fn gen_aux<B: BaseF, E: FieldElement<BaseField = B>>(s: &Shape, main: &ColMatrix<B>, rands: &[E]) -> Vec<Vec<E>> {
     gen_aux_from::<B, E>(s, main, rands, None)
 }
@@ -283,6 +285,10 @@ pub fn gen_aux_from<B: BaseF, E: FieldElement<BaseField = B>>(s: &Shape, main: &
         if aw > 1 {
             let m1: E = main.get(1 % w, i).into();
             cols[1][i + 1] = cols[1][i] * (m1 + rands[rands.len() - 1]) + m0;
+        }
+        if aw > 2 {
+            let c = cols[2][i];
+            cols[2][i + 1] = c * c * c * (m0 + rands[0]);
         }
     }
     cols
@@ -424,6 +430,9 @@ impl<B: BaseF> Air for GenAir<B> {
         if result.len() > 1 {
             let m1: E = mc[1 % s.width()].into();
             result[1] = an[1] - (ac[1] * (m1 + r[r.len() - 1]) + m0);
+        }
+        if result.len() > 2 {
+            result[2] = an[2] - ac[2] * ac[2] * ac[2] * (m0 + r[0]);
         }
     }
 
@@ -596,6 +605,12 @@ pub fn check_aux<B: BaseF, E: FieldElement<BaseField = B>>(s: &Shape, main: &[Ve
             let m1: E = main[1 % s.width()][i].into();
             if aux[1][nx] != aux[1][i] * (m1 + rands[rands.len() - 1]) + m0 {
                 return Err(format!("aux transition 1 fails at step {i}"));
+            }
+        }
+        if aux.len() > 2 {
+            let c = aux[2][i];
+            if aux[2][nx] != c * c * c * (m0 + rands[0]) {
+                return Err(format!("aux transition 2 fails at step {i}"));
             }
         }
     }
